@@ -909,6 +909,101 @@ def stream_nuclear(ctx, model):
         _cmp_vec(ctx, "nuclear.grad", case, g, np.asarray(U @ Vh, dtype=np.complex128).ravel(), orc, 1e-7)
 
 
+def stream_defaults(ctx, model):
+    """default argument values (table `Tables.defaults`, compared with the source by the generated obligation): the code
+    is called with the argument OMITTED and compared with the model at the tabulated value"""
+    import jax.numpy as jnp
+    import scico
+    import scico.numpy as snp
+    from scico import functional, linop, loss
+    from scico.function import Function
+
+    rng = ctx.rng
+    for _ in range(ctx.n(3, 20)):
+        cplx = bool(rng.random() < 0.5)
+        dt = np.complex128 if cplx else np.float64
+        n = int(rng.integers(2, 5))
+        x = G.dy(rng, (n,), cplx, nz=True)
+        y = G.dy(rng, (n,), cplx)
+        X, Y = snp.array(np.asarray(x if cplx else x.real, dtype=dt)), snp.array(np.asarray(y if cplx else y.real, dtype=dt))
+        yr = [float(v) for v in np.abs(common.dyadic(rng, (n,), bits=2, scale=2.0))]
+        Yr = snp.array(np.array(yr))
+        ident = {"kind": "none", "m": n}
+        Aid = linop.Identity((n,), input_dtype=dt)
+        trials = [
+            ("SquaredL2Loss(y)", loss.SquaredL2Loss(y=Y), {"k": "sqL2Loss", "s": 0.5, "op": ident, "y": G.enc(y), "w": None}),
+            ("Loss(y, f=L1Norm)", loss.Loss(y=Y, f=functional.L1Norm()), {"k": "loss", "s": 1.0, "op": ident, "y": G.enc(y), "f": {"k": "l1"}}),
+            ("SquaredL2AbsLoss(y, A)", loss.SquaredL2AbsLoss(y=Yr, A=Aid), {"k": "sqL2AbsLoss", "s": 0.5, "op": ident, "y": yr, "w": None}),
+            ("SquaredL2SquaredAbsLoss(y, A)", loss.SquaredL2SquaredAbsLoss(y=Yr, A=Aid), {"k": "sqL2SqAbsLoss", "s": 0.5, "op": ident, "y": yr, "w": None}),
+            ("HuberNorm()", functional.HuberNorm(), {"k": "huber", "delta": 1.0, "sep": True}),
+            ("L1MinusL2Norm()", functional.L1MinusL2Norm(), {"k": "l1ml2", "beta": 1.0}),
+        ]
+        if not cplx:
+            xp = np.abs(x.real) + 0.125
+            trials.append(("PoissonLoss(y)", loss.PoissonLoss(y=snp.array(np.array([float(int(v * 2)) for v in yr]))),
+                           {"k": "poisson", "s": 0.5, "op": ident, "y": [float(int(v * 2)) for v in yr]}))
+        for name, f, t in trials:
+            xx = (np.abs(x.real) + 0.125) if name.startswith("Poisson") else x
+            XX = snp.array(np.asarray(xx if cplx else np.real(xx), dtype=dt))
+            mk, mb = G.margin(t, xx)
+            if mk < 1e-6 or (0.0 < mb < 1e-6):
+                continue
+            got = model.call("fn", n=n, x=G.cv(xx), f=G.to_model(t, n))
+            case = {"tree": t, "n": n, "cplx": cplx, "x": G.enc(xx), "sizes": None, "call": name}
+            ctx.case({"tag": "defaults", "call": name, "cplx": cplx}, ("defaults", name, cplx))
+            ctx.count("defaults:" + name)
+            if not common.close(float(f(XX)), common.b2f(got["eval"]), TOLK):
+                ctx.disagree("defaults.eval", case, float(f(XX)), common.b2f(got["eval"]))
+                continue
+            _cmp_vec(ctx, "defaults.grad", case, f.grad(XX), G.from_cv(got["grad"]))
+        # L21Norm() : l2_axis = 0
+        r, c = int(rng.integers(1, 4)), int(rng.integers(1, 4))
+        x2 = G.dy(rng, (r * c,), cplx, nz=True)
+        grp, groups = _l21_groups((r, c), 0)
+        got = model.call("fn", n=r * c, x=G.cv(x2), f=G.to_model({"k": "l21", "axis": 0, "groups": groups, "grp": grp}, r * c))
+        f21 = functional.L21Norm()
+        X2 = snp.array(np.asarray(x2 if cplx else x2.real, dtype=dt).reshape(r, c))
+        ctx.case({"tag": "defaults", "call": "L21Norm()", "cplx": cplx}, ("defaults", "L21Norm()", cplx, r, c))
+        _cmp_vec(ctx, "defaults.l21", {"shape": [r, c], "x": G.enc(x2)}, f21.grad(X2), G.from_cv(got["grad"]))
+        # vjp / Function.vjp without `conjugate`, jacobian / Function.jacobian without `include_eval`, cvjp without jidx,
+        # grad / value_and_grad without argnums / has_aux
+        m = int(rng.integers(1, 4))
+        A, B, C = G.dy(rng, (m, n), cplx), (G.dy(rng, (m, n), cplx) if cplx else np.zeros((m, n))), G.dy(rng, (m, n), cplx, bits=2, scale=1.0)
+        c0, u, v, w = G.dy(rng, (m,), cplx), G.dy(rng, (n,), cplx), G.dy(rng, (n,), cplx), G.dy(rng, (m,), cplx)
+        case = {"n": n, "m": m, "cplx": cplx, "A": G.enc(A), "B": G.enc(B), "C": G.enc(C), "c0": G.enc(c0), "u": G.enc(u), "v": G.enc(v),
+                "w": G.enc(w), "conjugate": True, "include_eval": False}
+        F, _, _, _, _ = _build_operator(case)
+        U, V, W = (snp.array(np.asarray(a if cplx else a.real, dtype=dt)) for a in (u, v, w))
+        gop = model.call("opjac", n=n, m=m, F={"A": G.cmat(A), "B": G.cmat(B), "C": G.cmat(C), "c": G.cv(c0)}, u=G.cv(u), v=G.cv(v), w=G.cv(w))
+        ctx.case({"tag": "defaults", "call": "vjp/jacobian/cvjp", "cplx": cplx}, ("defaults", "jac", cplx, n, m))
+        ctx.count("defaults:vjp/jacobian/cvjp")
+        _cmp_vec(ctx, "defaults.vjp", case, F.vjp(U)[1](W), G.from_cv(gop["vjp"]), jac_oracle, exact=True)
+        J = linop.jacobian(F, U)
+        je = J(V)
+        if hasattr(je, "arrays"):
+            ctx.disagree("defaults.jacobian.blocks", case, len(je.arrays), 1, oracle=jac_oracle)
+        else:
+            _cmp_vec(ctx, "defaults.jacobian.eval", case, je, G.from_cv(gop["jvp"]), jac_oracle, exact=True)
+            _cmp_vec(ctx, "defaults.jacobian.adj", case, J.adj(W), G.from_cv(gop["vjp"]), jac_oracle, exact=True)
+        _cmp_vec(ctx, "defaults.cvjp", case, scico.cvjp(F, U)[1](W)[0], G.from_cv(gop["vjp"]), jac_oracle, exact=True)
+        Fn_ = Function(((n,), (n,)), output_shape=(m,), eval_fn=lambda a, b: F(a) + 0 * jnp.sum(b), input_dtypes=dt, output_dtype=dt)
+        _cmp_vec(ctx, "defaults.function.vjp", case, Fn_.vjp(0, U, V)[1](W), G.from_cv(gop["vjp"]), jac_oracle, exact=True)
+        jf = Fn_.jacobian(0, U, V)(V)
+        if hasattr(jf, "arrays"):
+            ctx.disagree("defaults.function.jacobian.blocks", case, len(jf.arrays), 1, oracle=jac_oracle)
+        # grad(fun)(p, q): argument 0, no aux
+        fq = lambda p, q: jnp.sum(jnp.abs(p - 2 * q) ** 2)  # noqa: E731
+        tq = {"k": "sqL2Loss", "s": 1.0, "op": ident, "y": G.enc(2 * y), "w": None}
+        gq = G.from_cv(model.call("fn", n=n, x=G.cv(x), f=G.to_model(tq, n))["grad"])
+        g0 = scico.grad(fq)(X, Y)
+        vg = scico.value_and_grad(fq)(X, Y)
+        if isinstance(g0, tuple) or not isinstance(vg, tuple) or len(vg) != 2 or isinstance(vg[1], tuple):
+            ctx.disagree("defaults.grad.structure", {"n": n}, str(type(g0)), "one array (argnums=0, has_aux=False)")
+        else:
+            _cmp_vec(ctx, "defaults.grad.argnums", {"n": n, "x": G.enc(x), "y": G.enc(y)}, g0, gq)
+            _cmp_vec(ctx, "defaults.value_and_grad.argnums", {"n": n, "x": G.enc(x), "y": G.enc(y)}, vg[1], gq)
+
+
 def stream_kinks(ctx, model):
     """L1Norm at points WITH zero coordinates (no gradient exists there): what `grad` returns must be a sub-gradient
     (theorem C07_l1_kink_subgradient): entries x_i/|x_i| where x_i != 0 (= the model), modulus <= 1 where x_i = 0
@@ -2352,6 +2447,8 @@ def _targeted_oracles(ctx):
     for name, cls in sorted(list(inspect.getmembers(functional, inspect.isclass)) + list(inspect.getmembers(loss, inspect.isclass))):
         if not (isinstance(cls, type) and issubclass(cls, functional.Functional)) or getattr(cls, "has_eval", None) is False:
             continue
+        if name in ("L0Norm", "NonNegativeIndicator", "L2BallIndicator"):
+            continue  # not smooth (piecewise constant / indicator): outside C07 (see Tables.family)
         try:
             f = cls(y=x) if issubclass(cls, loss.Loss) else cls()
         except Exception:  # noqa: BLE001
@@ -2440,7 +2537,7 @@ def correspond(ctx, model):
 
     common.setup_scico()
     warnings.filterwarnings("ignore", message="Casting complex values to real")
-    for stream in (run_corpus, stream_boundary, stream_l21, stream_tv, stream_setdist, stream_setdist_convex, stream_nuclear, stream_linop_loss, stream_kinks, stream_fn, stream_blocks, stream_single, stream_real_arg,
+    for stream in (run_corpus, stream_boundary, stream_l21, stream_tv, stream_setdist, stream_setdist_convex, stream_nuclear, stream_linop_loss, stream_kinks, stream_defaults, stream_fn, stream_blocks, stream_single, stream_real_arg,
                    stream_div_reject, stream_jac, stream_jac_block, stream_jac_mixed, stream_function, stream_hess, stream_heap, stream_heap_exhaustive, stream_autograd_api, stream_api_table, stream_linadj2):
         _guard(ctx, model, stream)
 
